@@ -11,16 +11,157 @@ package nasType
 
 // ---- C14: text getters of the mobile identity and DNN never panic or hang ----
 
-//@ func (a *MobileIdentity5GS) GetSUCI() (s)
+// ---- C12: text getters of the mobile identity (TS 24.501 9.11.3.4, TS 23.003) ----
+// HexCh(n): lower-case hexadecimal character of the nibble n. The Su* macros describe the SUCI text
+// "suci-0-<mcc>-<mnc>-<routing indicator>-<protection scheme>-<key id>-<scheme output>": lengths of the variable
+// parts (SuML, SuRL, SuPL, SuHL, SuSL) and their offsets (SuOR, SuOP, SuOH, SuOS); see nasConvert/verif_contracts.go.
+//@ define HexCh(n) := ite((n) < 10, 48 + (n), 87 + (n))
+//@ define HexOf(s, o, b) := (s[o] == HexCh((b) >> 4) && s[o+1] == HexCh((b) & 15))
+//@ define SuML(b) := ite((b[2] >> 4) == 15, 2, 3)
+//@ define SuRL(b) := ite((b[4] & 15) == 15, 0, ite((b[4] >> 4) == 15, 1, ite((b[5] & 15) == 15, 2, ite((b[5] >> 4) == 15, 3, 4))))
+//@ define SuPL(b) := ite(b[6] < 16, 1, 2)
+//@ define SuHL(b) := ite(b[7] < 10, 1, ite(b[7] < 100, 2, 3))
+//@ define SuSL(b) := ite(b[6] == 0, 2*(len(b) - 8) - ite((b[len(b)-1] >> 4) == 15, 1, 0), 2*(len(b) - 8))
+//@ define SuOR(b) := (12 + SuML(b))
+//@ define SuOP(b) := (13 + SuML(b) + SuRL(b))
+//@ define SuOH(b) := (14 + SuML(b) + SuRL(b) + SuPL(b))
+//@ define SuOS(b) := (15 + SuML(b) + SuRL(b) + SuPL(b) + SuHL(b))
+//@ define SuRNib(b, j) := ite((j) == 0, b[4] & 15, ite((j) == 1, b[4] >> 4, ite((j) == 2, b[5] & 15, b[5] >> 4)))
+//@ define SuSNib(b, j) := ite(((j) & 1 == 0) == (b[6] == 0), b[8 + ((j) >> 1)] & 15, b[8 + ((j) >> 1)] >> 4)
+// IdSuci: the identity type is SUCI (1) or one of the values read as SUCI (6, 7); SuImsiT: SUCI in IMSI format, long enough.
+//@ define IdSuci(b) := (len(b) >= 1 && ((b[0] & 7) == 1 || (b[0] & 7) >= 6))
+//@ define SuImsiT(b) := (len(b) >= 9 && ((b[0] & 7) == 1 || (b[0] & 7) >= 6) && (b[0] >> 4) != 1)
+
+// NAI format: "nai-1-" followed by the octets after the first in hexadecimal.
+//@ define NaiText(s, buf) := (len(s) == 6 + 2*(len(buf) - 1) && s[0] == 'n' && s[1] == 'a' && s[2] == 'i' && s[3] == '-' && s[4] == '1' && s[5] == '-' && forall(k, 0, len(buf) - 1, HexOf(s, 6 + 2*k, buf[1+k])))
+//@ func naiToString(buf) (s)
+//@   requires len(buf) >= 1
+//@   assigns nothing
+//@   ensures NaiText(s, buf)
+//@ end
+
+//@ func (a *MobileIdentity5GS) GetSUCI() (suci)
+//@   assigns nothing
 //@   loop 0 invariant 8 <= i && i <= len(a.Buffer) && len(msinBytes) == i - 8
+//@   loop 0 invariant forall(k, 0, i - 8, msinBytes[k] == (a.Buffer[8+k] << 4) | (a.Buffer[8+k] >> 4))
 //@   loop 0 decreases len(a.Buffer) - i
+//@   ensures implies(!IdSuci(a.Buffer), len(suci) == 0)
+//@   ensures implies(IdSuci(a.Buffer) && (a.Buffer[0] >> 4) != 1 && len(a.Buffer) < 9, len(suci) == 0)
+//@   ensures implies(IdSuci(a.Buffer) && (a.Buffer[0] >> 4) == 1, NaiText(suci, a.Buffer))
+//@   ensures implies(SuImsiT(a.Buffer), len(suci) == SuOS(a.Buffer) + SuSL(a.Buffer))
+//@   ensures implies(SuImsiT(a.Buffer), suci[0] == 's' && suci[1] == 'u' && suci[2] == 'c' && suci[3] == 'i' && suci[4] == '-' && suci[5] == '0' && suci[6] == '-')
+//@   ensures implies(SuImsiT(a.Buffer), suci[7] == HexCh(a.Buffer[1] & 15) && suci[8] == HexCh(a.Buffer[1] >> 4) && suci[9] == HexCh(a.Buffer[2] & 15) && suci[10] == '-')
+//@   ensures implies(SuImsiT(a.Buffer), suci[11] == HexCh(a.Buffer[3] & 15) && suci[12] == HexCh(a.Buffer[3] >> 4) && suci[11 + SuML(a.Buffer)] == '-')
+//@   ensures implies(SuImsiT(a.Buffer) && SuML(a.Buffer) == 3, suci[13] == HexCh(a.Buffer[2] >> 4))
+//@   ensures implies(SuImsiT(a.Buffer), forall(j, 0, SuRL(a.Buffer), suci[SuOR(a.Buffer) + j] == HexCh(SuRNib(a.Buffer, j))) && suci[SuOR(a.Buffer) + SuRL(a.Buffer)] == '-')
+//@   ensures implies(SuImsiT(a.Buffer) && a.Buffer[6] < 16, suci[SuOP(a.Buffer)] == HexCh(a.Buffer[6]))
+//@   ensures implies(SuImsiT(a.Buffer) && a.Buffer[6] >= 16, suci[SuOP(a.Buffer)] == HexCh(a.Buffer[6] >> 4) && suci[SuOP(a.Buffer) + 1] == HexCh(a.Buffer[6] & 15))
+//@   ensures implies(SuImsiT(a.Buffer), suci[SuOP(a.Buffer) + SuPL(a.Buffer)] == '-' && suci[SuOH(a.Buffer) + SuHL(a.Buffer)] == '-')
+//@   ensures implies(SuImsiT(a.Buffer) && a.Buffer[7] < 10, suci[SuOH(a.Buffer)] == 48 + a.Buffer[7])
+//@   ensures implies(SuImsiT(a.Buffer) && a.Buffer[7] >= 10 && a.Buffer[7] < 100, suci[SuOH(a.Buffer)] == 48 + a.Buffer[7] / 10 && suci[SuOH(a.Buffer) + 1] == 48 + a.Buffer[7] % 10)
+//@   ensures implies(SuImsiT(a.Buffer) && a.Buffer[7] >= 100, suci[SuOH(a.Buffer)] == 48 + a.Buffer[7] / 100 && suci[SuOH(a.Buffer) + 1] == 48 + (a.Buffer[7] / 10) % 10 && suci[SuOH(a.Buffer) + 2] == 48 + a.Buffer[7] % 10)
+//@   ensures implies(SuImsiT(a.Buffer), forall(j, 0, SuSL(a.Buffer), suci[SuOS(a.Buffer) + j] == HexCh(SuSNib(a.Buffer, j))))
+//@ end
+
+//@ func (a *MobileIdentity5GS) GetMCC() (s)
+//@   assigns nothing
+//@   ensures implies(len(a.Buffer) < 4, len(s) == 0)
+//@   ensures implies(len(a.Buffer) >= 4, len(s) == 3 && s[0] == HexCh(a.Buffer[1] & 15) && s[1] == HexCh(a.Buffer[1] >> 4) && s[2] == HexCh(a.Buffer[2] & 15))
+//@ end
+
+//@ func (a *MobileIdentity5GS) GetMNC() (s)
+//@   assigns nothing
+//@   ensures implies(len(a.Buffer) < 4, len(s) == 0)
+//@   ensures implies(len(a.Buffer) >= 4, len(s) == SuML(a.Buffer) && s[0] == HexCh(a.Buffer[3] & 15) && s[1] == HexCh(a.Buffer[3] >> 4))
+//@   ensures implies(len(a.Buffer) >= 4 && SuML(a.Buffer) == 3, s[2] == HexCh(a.Buffer[2] >> 4))
+//@ end
+
+//@ func (a *MobileIdentity5GS) GetPlmnID() (s)
+//@   assigns nothing
+//@   ensures implies(len(a.Buffer) >= 4, len(s) == 3 + SuML(a.Buffer) && s[0] == HexCh(a.Buffer[1] & 15) && s[1] == HexCh(a.Buffer[1] >> 4) && s[2] == HexCh(a.Buffer[2] & 15) && s[3] == HexCh(a.Buffer[3] & 15) && s[4] == HexCh(a.Buffer[3] >> 4))
+//@   ensures implies(len(a.Buffer) >= 4 && SuML(a.Buffer) == 3, s[5] == HexCh(a.Buffer[2] >> 4))
+//@ end
+
+//@ func (a *MobileIdentity5GS) GetAmfID() (s)
+//@   assigns nothing
+//@   ensures implies(len(a.Buffer) < 7, len(s) == 0)
+//@   ensures implies(len(a.Buffer) >= 7, len(s) == 6 && HexOf(s, 0, a.Buffer[4]) && HexOf(s, 2, a.Buffer[5]) && HexOf(s, 4, a.Buffer[6]))
+//@ end
+
+// 5G-TMSI: octets 8.. of a 5G-GUTI (type 2), octets 4..7 of a 5G-S-TMSI (type 4), in hexadecimal.
+//@ func (a *MobileIdentity5GS) Get5GTMSI() (s)
+//@   assigns nothing
+//@   ensures implies(len(a.Buffer) < 7 || ((a.Buffer[0] & 7) != 2 && (a.Buffer[0] & 7) != 4), len(s) == 0)
+//@   ensures implies(len(a.Buffer) >= 7 && (a.Buffer[0] & 7) == 2, len(s) == 2*(len(a.Buffer) - 7) && forall(k, 0, len(a.Buffer) - 7, HexOf(s, 2*k, a.Buffer[7+k])))
+//@   ensures implies(len(a.Buffer) >= 7 && (a.Buffer[0] & 7) == 4, len(s) == 8 && forall(k, 0, 4, HexOf(s, 2*k, a.Buffer[3+k])))
+//@ end
+
+//@ func (a *MobileIdentity5GS) Get5GGUTI() (s)
+//@   lencase a.Buffer 11
+//@   assigns nothing
+//@   ensures implies(len(a.Buffer) == 11 && (a.Buffer[0] & 7) == 2, len(s) == 17 + SuML(a.Buffer))
+//@   ensures implies(len(a.Buffer) == 11 && (a.Buffer[0] & 7) == 2, s[0] == HexCh(a.Buffer[1] & 15) && s[1] == HexCh(a.Buffer[1] >> 4) && s[2] == HexCh(a.Buffer[2] & 15) && s[3] == HexCh(a.Buffer[3] & 15) && s[4] == HexCh(a.Buffer[3] >> 4))
+//@   ensures implies(len(a.Buffer) == 11 && (a.Buffer[0] & 7) == 2 && SuML(a.Buffer) == 3, s[5] == HexCh(a.Buffer[2] >> 4))
+//@   ensures implies(len(a.Buffer) == 11 && (a.Buffer[0] & 7) == 2, forall(k, 0, 7, HexOf(s, 3 + SuML(a.Buffer) + 2*k, a.Buffer[4+k])))
+//@ end
+
+// 5G-S-TMSI text: AMF set id and pointer octets followed by the 5G-TMSI, in hexadecimal.
+//@ func (a *MobileIdentity5GS) Get5GSTMSI() (s, t, err)
+//@   lencase a.Buffer 7
+//@   assigns nothing
+//@   ensures implies(len(a.Buffer) < 3, err != nil)
+//@   ensures implies(len(a.Buffer) >= 3, err == nil)
+//@   ensures implies(len(a.Buffer) == 7 && (a.Buffer[0] & 7) == 4, len(s) == 12 && forall(k, 0, 6, HexOf(s, 2*k, a.Buffer[1+k])))
+//@ end
+
+// Dec4(s, v): s is the decimal text of v (v < 10000) without leading zeros.
+//@ define Dec4(s, v) := (implies((v) < 10, len(s) == 1 && s[0] == uint8(48 + (v))) && implies((v) >= 10 && (v) < 100, len(s) == 2 && s[0] == uint8(48 + (v)/10) && s[1] == uint8(48 + (v)%10)) && implies((v) >= 100 && (v) < 1000, len(s) == 3 && s[0] == uint8(48 + (v)/100) && s[1] == uint8(48 + ((v)/10)%10) && s[2] == uint8(48 + (v)%10)) && implies((v) >= 1000, len(s) == 4 && s[0] == uint8(48 + (v)/1000) && s[1] == uint8(48 + ((v)/100)%10) && s[2] == uint8(48 + ((v)/10)%10) && s[3] == uint8(48 + (v)%10)))
+
+//@ func (a *MobileIdentity5GS) GetAmfRegionID() (s)
+//@   assigns nothing
+//@   ensures implies(len(a.Buffer) < 5, len(s) == 0)
+//@   ensures implies(len(a.Buffer) >= 5, len(s) == 2 && HexOf(s, 0, a.Buffer[4]))
+//@ end
+
+// AMF set id (10 bits) and pointer (6 bits) in decimal: octets 6..7 of a 5G-GUTI, octets 2..3 of a 5G-S-TMSI.
+//@ func (a *MobileIdentity5GS) GetAmfSetID() (s)
+//@   assigns nothing
+//@   ensures implies(len(a.Buffer) >= 7 && (a.Buffer[0] & 7) == 2, Dec4(s, (uint16(a.Buffer[5]) << 2) | uint16(a.Buffer[6] >> 6)))
+//@   ensures implies(len(a.Buffer) >= 3 && (a.Buffer[0] & 7) == 4, Dec4(s, (uint16(a.Buffer[1]) << 2) | uint16(a.Buffer[2] >> 6)))
+//@ end
+
+//@ func (a *MobileIdentity5GS) GetAmfPointer() (s)
+//@   assigns nothing
+//@   ensures implies(len(a.Buffer) >= 7 && (a.Buffer[0] & 7) == 2, Dec4(s, uint16(a.Buffer[6] & 63)))
+//@   ensures implies(len(a.Buffer) >= 3 && (a.Buffer[0] & 7) == 4, Dec4(s, uint16(a.Buffer[2] & 63)))
+//@ end
+
+//@ define PeiN(buf) := (2*len(buf) - 1 - ite(buf[0] & 8 == 0, 1, 0))
+//@ define PeiNib(buf, j) := ite((j) & 1 == 0, buf[(j) >> 1] >> 4, buf[((j) + 1) >> 1] & 15)
+//@ func (a *MobileIdentity5GS) GetIMEI() (s)
+//@   assigns nothing
+//@   ensures implies(len(a.Buffer) < 1 || (a.Buffer[0] & 7) != 3, len(s) == 0)
+//@   ensures implies(len(a.Buffer) >= 1 && (a.Buffer[0] & 7) == 3, len(s) == 5 + PeiN(a.Buffer) && s[0] == 'i' && s[1] == 'm' && s[2] == 'e' && s[3] == 'i' && s[4] == '-')
+//@   ensures implies(len(a.Buffer) >= 1 && (a.Buffer[0] & 7) == 3, forall(j, 0, PeiN(a.Buffer), s[5 + j] == HexCh(PeiNib(a.Buffer, j))))
+//@ end
+
+//@ func (a *MobileIdentity5GS) GetIMEISV() (s)
+//@   assigns nothing
+//@   ensures implies(len(a.Buffer) < 1 || (a.Buffer[0] & 7) != 5, len(s) == 0)
+//@   ensures implies(len(a.Buffer) >= 1 && (a.Buffer[0] & 7) == 5, len(s) == 7 + PeiN(a.Buffer) && s[0] == 'i' && s[1] == 'm' && s[2] == 'e' && s[3] == 'i' && s[4] == 's' && s[5] == 'v' && s[6] == '-')
+//@   ensures implies(len(a.Buffer) >= 1 && (a.Buffer[0] & 7) == 5, forall(j, 0, PeiN(a.Buffer), s[7 + j] == HexCh(PeiNib(a.Buffer, j))))
 //@ end
 
 //@ func peiToString(buf) (s)
 //@   requires len(buf) >= 1
+//@   assigns nothing
 //@   loop 0 invariant -1 <= rangeindex && rangeindex <= len(buf) - 2
 //@   loop 0 invariant len(tmpBytes) == rangeindex + 2
+//@   loop 0 invariant forall(k, 0, rangeindex + 1, tmpBytes[k] == (buf[k] & 0xf0) | (buf[k+1] & 0x0f))
+//@   loop 0 invariant tmpBytes[rangeindex+1] == buf[rangeindex+1] & 0xf0
 //@   loop 0 decreases len(buf) - rangeindex
+//@   ensures len(s) == PeiN(buf)
+//@   ensures forall(j, 0, PeiN(buf), s[j] == HexCh(PeiNib(buf, j)))
 //@ end
 
 //@ func rfc1035tofqdn(rfc1035RR) (s)
@@ -28,6 +169,3 @@ package nasType
 //@   loop 0 decreases buflen(rfc1035Reader)
 //@ end
 
-//@ func naiToString(buf) (s)
-//@   requires len(buf) >= 1
-//@ end
